@@ -523,6 +523,45 @@ func init() {
 				}
 			}
 		}
+		// large buckets: above the 1 MiB chunk in which singleWidthIndex.Unmarshal reads a bucket
+		// (kind idxbig; the extracted code evaluates only the layer-B expectation for these)
+		bigs := []c11BigDesc{{c11BigBucket{0x12, 32, 30000}, c11BigBucket{0x11, 20, 500}, 40}}
+		if c.Thorough {
+			bigs = append(bigs,
+				c11BigDesc{c11BigBucket{0x12, 32, 60000}, c11BigBucket{0x13, 64, 3}, 0},      // 2.4 MB bucket
+				c11BigDesc{c11BigBucket{0x12, 32, 26214}, c11BigBucket{0x11, 20, 1}, 0},      // last bucket below 1 MiB
+				c11BigDesc{c11BigBucket{0x12, 32, 26215}, c11BigBucket{0x11, 20, 1}, 0},      // first above
+				c11BigDesc{c11BigBucket{0x1b, 8, 65535}, c11BigBucket{0x11, 20, 2}, 0},       // 1 MiB - 16 bytes
+				c11BigDesc{c11BigBucket{0x1b, 8, 65536}, c11BigBucket{0x11, 20, 2}, 0},       // exactly 1 MiB
+				c11BigDesc{c11BigBucket{0x1b, 8, 65536}, c11BigBucket{0x11, 20, 2}, 1},       // 1 MiB + 16
+				c11BigDesc{c11BigBucket{0x1b, 8, 131071}, c11BigBucket{0x11, 20, 2}, 0},      // 2 MiB - 16
+				c11BigDesc{c11BigBucket{0x1b, 8, 131072}, c11BigBucket{0x11, 20, 2}, 0},      // exactly 2 MiB
+				c11BigDesc{c11BigBucket{0x1b, 8, 131072}, c11BigBucket{0x11, 20, 2}, 1},      // 2 MiB + 16
+				c11BigDesc{c11BigBucket{0x12, 32, 30000}, c11BigBucket{0x11, 20, 60000}, 100}, // two buckets above 1 MiB
+			)
+		}
+		for _, d := range bigs {
+			for _, codec := range []uint64{0x0400, 0x0401} {
+				r := c.R.Fork()
+				var samples [][2]uint64
+				sv := VL{}
+				for k := 0; k < 24; k++ {
+					s := [2]uint64{uint64(r.Intn(2)), uint64(r.Intn(d.a.n + d.a.n/8 + 2))}
+					if k < d.ndup && k < 6 {
+						s = [2]uint64{0, uint64((7 * k) % d.a.n)} // a key that also has a duplicate record
+					}
+					samples = append(samples, s)
+					sv = append(sv, VL{VN(s[0]), VN(s[1])})
+				}
+				var trailer []byte
+				if r.Bool() {
+					trailer = r.Bytes(1 + r.Intn(9))
+				}
+				in := VL{VN(codec), d.val(), sv, VB(trailer)}
+				c.Emit("idxbig", in, runIdxBigImpl(codec, d, samples, trailer, r.Bool()), true)
+				c.Count("records:bucket-above-1MiB")
+			}
+		}
 		// raw random bytes through ReadFrom
 		for k := 0; k < 40*c.Scale; k++ {
 			r := c.R.Fork()
